@@ -214,6 +214,11 @@ pub struct Probe {
     /// hold gate: an application task whose plan names a send operation in `hold` waits here right
     /// before that call (the stream object exists already) until the monitor opens it
     pub gate2: Arc<Mutex<(bool, Vec<std::task::Waker>)>>,
+    /// application think time: (seed, counter). With a non-zero seed the simulated applications
+    /// yield to the scheduler (return Pending once) at about every third `yield_point`, i.e.
+    /// between two reads or writes of a body - an application that does something else between
+    /// `recv_data` calls lets h3's buffers fill and lets network events fall between two calls
+    pub yielding: Arc<(std::sync::atomic::AtomicU64, std::sync::atomic::AtomicU64)>,
 }
 
 impl Probe {
@@ -226,7 +231,34 @@ impl Probe {
             latch: Arc::new(Mutex::new((0, None))),
             gate: Arc::new(Mutex::new((false, Vec::new()))),
             gate2: Arc::new(Mutex::new((false, Vec::new()))),
+            yielding: Arc::new((std::sync::atomic::AtomicU64::new(lock(net).cfg.think), std::sync::atomic::AtomicU64::new(0))),
         }
+    }
+    /// turn application think time on (seed != 0) or off (0)
+    pub fn set_yield(&self, seed: u64) {
+        self.yielding.0.store(seed, std::sync::atomic::Ordering::Relaxed);
+    }
+    pub async fn yield_point(&self, actor: &str) {
+        use std::sync::atomic::Ordering::Relaxed;
+        let seed = self.yielding.0.load(Relaxed);
+        if seed == 0 {
+            return;
+        }
+        let n = self.yielding.1.fetch_add(1, Relaxed);
+        if crate::util::hash64(&(seed, actor, n)) % 3 != 0 {
+            return;
+        }
+        let mut yielded = false;
+        std::future::poll_fn(|cx| {
+            if yielded {
+                std::task::Poll::Ready(())
+            } else {
+                yielded = true;
+                cx.waker().wake_by_ref();
+                std::task::Poll::Pending
+            }
+        })
+        .await
     }
     pub fn gate2_open(&self) {
         let mut g = self.gate2.lock().unwrap();
@@ -719,6 +751,7 @@ async fn server_recv_part<B: BodyBuf, S: h3::quic::RecvStream>(
         match r {
             Ok(Some(_)) => {
                 pieces += 1;
+                probe.yield_point(actor).await;
                 continue;
             }
             Ok(None) => break,
@@ -768,6 +801,7 @@ async fn server_send_half<B: BodyBuf, S: h3::quic::SendStream<B>>(
             .call(actor, "send_data", s.send_data(B::make(piece.clone(), salt ^ i as u64)), |r| unit_out(r, se))
             .await
             .map_err(|_| ())?;
+        probe.yield_point(actor).await;
     }
     if plan.stop_after_pieces.is_none() {
         if let Some(t) = &plan.resp.trailers {
@@ -992,6 +1026,7 @@ async fn client_send_half<B: BodyBuf, S: h3::quic::SendStream<B>>(
             .call(actor, "send_data", s.send_data(B::make(piece.clone(), (salt << 8) ^ i as u64)), |r| unit_out(r, se))
             .await
             .map_err(|_| ())?;
+        probe.yield_point(actor).await;
     }
     if plan.stop_after_pieces.is_none() {
         if let Some(t) = &plan.req.trailers {
@@ -1060,6 +1095,7 @@ async fn client_recv_part<B: BodyBuf, S: h3::quic::RecvStream>(
         match r {
             Ok(Some(_)) => {
                 pieces += 1;
+                probe.yield_point(actor).await;
                 continue;
             }
             Ok(None) => break,
